@@ -294,6 +294,8 @@ def gen_case(rng, collide=False, big=False, defaults=False):
                ign=rng.choice([0, 0, 0, 0, 0, 0, 1, 2, 3]), maxs=MAXS)
     if defaults:
         cfg.update(maxc=512, maxb=3145728)
+    if rng.random() < 0.04:
+        cfg["nocb"] = 1                                      # no new-stream callback installed: callback_not_set path
     ops = ["case " + " ".join(f"{k}={v}" for k, v in cfg.items())]
     n = rng.choice([1, 2, 2, 3, 3, 4, 6, 8])
     conns, keys = [], set()
